@@ -7,6 +7,8 @@
   seeded.py check <seeded-dir> [Cxx ...]     run the quick tier of the property's check (default: meta.json 'property')
                                              against the patched worktree through VERIF_REPO; prints exit code and time
 
+  seeded.py check-all [--only-missing] [id ...]  `check` for every seeded/<id>; outcomes recorded in seeded/results.json
+  seeded.py readme                            regenerate seeded/README.md from meta.json + results.json (+ seeded/NOTES.md)
   seeded.py stage <agent-out-dir> Cxx k       copy the agent's patch<k>.diff / demo<k>.py / notes<k>.md to seeded/Cxx-m<k>/
 
 The worktree lives under /var/tmp and is removed afterwards.  /repo itself is never modified."""
@@ -28,13 +30,32 @@ def sh(cmd, cwd=None, env=None, timeout=None):
     return r.returncode, r.stdout + r.stderr
 
 
-def worktree(tag):
+def worktree(tag, rev="HEAD"):
     wt = "/var/tmp/seed-%s-%d" % (tag, os.getpid())
     sh(["git", "-C", REPO, "worktree", "remove", "--force", wt])
-    rc, out = sh(["git", "-C", REPO, "worktree", "add", "--detach", wt, "HEAD"])
+    rc, out = sh(["git", "-C", REPO, "worktree", "add", "--detach", wt, rev])
     if rc != 0:
         raise SystemExit("worktree add failed: " + out)
     return wt
+
+
+def patched_worktree(d, tag):
+    """worktree of /repo HEAD with the patch applied; when a later repair in /repo touched the same lines the patch
+    no longer applies there - then the commit recorded in meta.json (applies_to_repo_commit) is used.  -> (wt, rev)"""
+    patch = os.path.join(os.path.abspath(d), "patch.diff")
+    revs = ["HEAD"]
+    mp = os.path.join(d, "meta.json")
+    if os.path.exists(mp):
+        c = json.load(open(mp)).get("applies_to_repo_commit")
+        if c:
+            revs.append(c)
+    for rev in revs:
+        wt = worktree(tag, rev)
+        rc, out = sh(["git", "apply", patch], cwd=wt)
+        if rc == 0:
+            return wt, rev
+        remove(wt)
+    raise SystemExit("patch does not apply: " + out)
 
 
 def remove(wt):
@@ -69,12 +90,14 @@ def run_demo(d, wt):
 
 def confirm(d, suite):
     tag = os.path.basename(os.path.normpath(d))
-    wt = worktree(tag)
-    res = {}
+    wt, rev = patched_worktree(d, tag)
+    res = {"repo_rev": rev}
     try:
+        patch = os.path.join(os.path.abspath(d), "patch.diff")
+        sh(["git", "apply", "-R", patch], cwd=wt)
         rc0, out0 = run_demo(d, wt)
         res["demo_unpatched_rc"] = rc0
-        rc, out = sh(["git", "apply", os.path.join(os.path.abspath(d), "patch.diff")], cwd=wt)
+        rc, out = sh(["git", "apply", patch], cwd=wt)
         if rc != 0:
             raise SystemExit("patch does not apply: " + out)
         # a grammar change needs fresh tables in the worktree
@@ -110,12 +133,9 @@ def check(d, props):
     if os.path.exists(mp):
         meta = json.load(open(mp))
     props = props or [meta.get("property")]
-    wt = worktree(tag + "-chk")
+    wt, rev = patched_worktree(d, tag + "-chk")
     out_rows = []
     try:
-        rc, out = sh(["git", "apply", os.path.join(os.path.abspath(d), "patch.diff")], cwd=wt)
-        if rc != 0:
-            raise SystemExit("patch does not apply: " + out)
         for p in props:
             env = dict(os.environ, VERIF_REPO=wt)
             # the evidence file must describe the unchanged tree: keep it and put it back afterwards
@@ -128,7 +148,8 @@ def check(d, props):
                 rc, out = 124, "timeout"
             viol = [ln for ln in out.splitlines() if ln.startswith("VIOLATION")]
             out_rows.append({"property": p, "exit": rc, "wall_s": round(time.time() - t0, 1), "violations": len(viol),
-                             "first": viol[0][:300] if viol else out.strip().splitlines()[-1][:300] if out.strip() else ""})
+                             "first": viol[0][:300] if viol else out.strip().splitlines()[-1][:300] if out.strip() else "",
+                             "repo_rev": rev})
             # violation replay files written by this run belong to the mutant, not to the tree
             sh("rm -f %s/replays/%s/violation-*.json" % (VERIF, p))
             if saved is not None:
@@ -136,6 +157,63 @@ def check(d, props):
     finally:
         remove(wt)
     print(json.dumps(out_rows, indent=1))
+    return 0
+
+
+def check_all(only_missing, ids):
+    """run `check` for every seeded/<id> and record the outcome in seeded/results.json (one entry per id)"""
+    import io
+    import contextlib
+
+    rp = os.path.join(VERIF, "seeded", "results.json")
+    res = json.load(open(rp)) if os.path.exists(rp) else {}
+    rc, head = sh(["git", "-C", VERIF, "rev-parse", "--short", "HEAD"])
+    for name in sorted(os.listdir(os.path.join(VERIF, "seeded"))):
+        d = os.path.join(VERIF, "seeded", name)
+        if not os.path.exists(os.path.join(d, "patch.diff")):
+            continue
+        if ids and name not in ids:
+            continue
+        if only_missing and name in res:
+            continue
+        buf = io.StringIO()
+        with contextlib.redirect_stdout(buf):
+            check(d, [])
+        rows = json.loads(buf.getvalue())
+        res[name] = {"check": rows[0]["property"], "caught": rows[0]["exit"] == 1, "exit": rows[0]["exit"], "wall_s": rows[0]["wall_s"],
+                     "violations": rows[0]["violations"], "first": rows[0]["first"], "verif_commit": head.strip()}
+        print(name, "caught" if res[name]["caught"] else "MISSED (exit %s)" % rows[0]["exit"], rows[0]["wall_s"], flush=True)
+        with open(rp, "w") as f:
+            json.dump(res, f, indent=1, sort_keys=True)
+    return 0
+
+
+def readme():
+    """write seeded/README.md from the meta.json files and results.json"""
+    rp = os.path.join(VERIF, "seeded", "results.json")
+    res = json.load(open(rp)) if os.path.exists(rp) else {}
+    lines = ["# Independently seeded breaking changes", "",
+             "Each directory holds one change to xonsh written by an agent that saw only the text of one property and a scratch",
+             "worktree (nothing from /verif): `patch.diff`, the author's demonstration (`demo.py`: exit 0 on the unchanged tree,",
+             "non-zero with the patch), `notes.md`, and `meta.json` (property, what it needs to manifest, how it was confirmed).",
+             "None of them is ever applied to /repo: `tools/seeded.py confirm <dir> [--suite]` and `tools/seeded.py check <dir>` work in a",
+             "scratch worktree under /var/tmp and point the check at it with `VERIF_REPO`.", "",
+             "`results.json` is written by `tools/seeded.py check-all` (quick tier, seed 1, of the property's own check against the patched tree).", "",
+             "| id | what the change does | needs | quick tier of the property's check | wall |", "|---|---|---|---|---|"]
+    for name in sorted(os.listdir(os.path.join(VERIF, "seeded"))):
+        mp = os.path.join(VERIF, "seeded", name, "meta.json")
+        if not os.path.exists(mp):
+            continue
+        m = json.load(open(mp))
+        r = res.get(name)
+        verdict = "not run" if r is None else ("**caught** (%d VIOLATION lines)" % r["violations"] if r["caught"] else "MISSED (exit %s)" % r["exit"])
+        cell = lambda t: (t or "").replace("|", "\\|").replace("\n", " ")  # noqa: E731
+        lines.append("| %s | %s | %s | %s | %s |" % (name, cell(m.get("what")), cell(m.get("needs")), verdict, "%.0f s" % r["wall_s"] if r else ""))
+    extra = os.path.join(VERIF, "seeded", "NOTES.md")
+    if os.path.exists(extra):
+        lines += ["", open(extra).read().rstrip()]
+    with open(os.path.join(VERIF, "seeded", "README.md"), "w") as f:
+        f.write("\n".join(lines) + "\n")
     return 0
 
 
@@ -157,8 +235,12 @@ def stage(src, prop, k):
 
 
 if __name__ == "__main__":
-    if len(sys.argv) < 3:
+    if len(sys.argv) < 2:
         raise SystemExit(__doc__)
+    if sys.argv[1] == "check-all":
+        sys.exit(check_all("--only-missing" in sys.argv, [a for a in sys.argv[2:] if not a.startswith("-")]))
+    if sys.argv[1] == "readme":
+        sys.exit(readme())
     if sys.argv[1] == "stage":
         sys.exit(stage(sys.argv[2], sys.argv[3], sys.argv[4]))
     if sys.argv[1] == "confirm":
